@@ -10,6 +10,14 @@ theorem UARTWord_eq_sound (a b : Word) (he : a.data_endianness = b.data_endianne
   obtain ⟨h1, h2, h3, _, h5⟩ := (Word_eq_iff a b).1 h
   simp only [Word.pack, h1, h2, h3, h5, he]
 
+/-- the hypothesis `he` cannot be dropped: `UARTDataWord.__eq__` does not look at `data_endianness` (a constructor
+    option), and two words that differ only there compare equal and encode differently (bytes swapped in pairs) -/
+example :
+    let w0 : Word := Word.setPayload (Word.fresh (.rtc 1) 0) [1, 2, 3, 4]
+    let w1 : Word := Word.setPayload (Word.fresh (.rtc 1) 1) [1, 2, 3, 4]
+    Word.eq w0 w1 = true ∧
+    (match w0.pack, w1.pack with | .ok x, .ok y => x != y | _, _ => false) = true := ⟨by decide, rfl⟩
+
 example :
     let w : Word := Word.setPayload (Word.fresh (.ptp 5 999999999) 1) [1, 2, 3]
     w.data_endianness = w.data_endianness ∧ Word.eq w w = true := ⟨rfl, by decide⟩
